@@ -208,7 +208,7 @@ func secsSML(cd ctorDef, vals []any) (s string) {
 
 func partErrored(c *vfw.Ctx) {
 	c.Rule("part B (errored items): 30 ways to build an errored leaf (bad argument per constructor, mixed valid+invalid, invalid byte size) + 9 oversize items (2^24 payload bytes / children) x {direct, nested in lists at depth 1..3 at every position vector (only/first/middle/last per level), clean siblings created before and after the errored leaf, beside untyped-nil siblings, one errored inner list shared by several parents}; " +
-		"typed-nil pointers of all 10 concrete item types as list children (3 shapes): NewListItem does not panic and no use of the list yields a message or a true Equal (a panic on use is the library's documented, test-pinned behaviour and is counted, not flagged); each errored item e x 38 clean items x: Error()!=nil at the root, Equal(e,e)=Equal(e,x)=Equal(x,e)=Equal(L(e),L(x))=false, Equal to its clean look-alike false; " +
+		"typed-nil pointers of all 10 concrete item types as list children (3 shapes): NewListItem does not panic and no use of the list yields a message or a true Equal (a panic on use is the library's documented, test-pinned behaviour and is counted, not flagged); each errored item e x 38 clean items x: Error()!=nil at the root, Equal(e,e)=Equal(e,x)=Equal(x,e)=Equal(L(e),L(x))=false, also for two distinct lists sharing e (or a sub-list holding e) by reference, Equal to its clean look-alike false; " +
 		"hsms.NewDataMessage (W=0/1), NewDataMessageFromHeader, Derive().WithItem(e).Build(), hsmstest.FakeEndpoint.{SendDataMessage,SendDataMessageAsync,SendSECS2Message(secs2.NewMessage / gem.S1F4),ReplyDataMessage} all return an error and record nothing; " +
 		"SML construction path: S1F1 W <T v..> for T in I1..I8,U1..U8,F4,F8,B x every numeric-string token x {1,2 values} x {Parse, ParseStrict}: refused, or a clean item holding exact / nearest-bound values (never wrapped, never errored); oversize SML texts are refused")
 	clean := cleanItems()
